@@ -174,6 +174,7 @@ class Ctx:
         self.logs = [log] if log is not None else None      # stack of event lists (alone run)
         self.inner = {}                                      # nested call id -> (outcome, exception) as observed
         self.paths = {}                                      # re-entry id -> scope[Path] of the running call there
+        self.uvars = {}                                      # re-entry id -> the user's scope variables visible there
 
     def yield_point(self, idx):
         if self.logs is not None:
@@ -406,6 +407,7 @@ class Reenter:
             ctx.paths[self.nid] = list(scope[glom.Path])
         except (KeyError, TypeError):
             pass
+        ctx.uvars[self.nid] = user_vars(scope)
 
         def run():
             if how == 'none':
@@ -445,14 +447,20 @@ class Reenter:
                 return 'caught-%d' % self.nid
         return scope[glom.glom](target, self.after, scope)
 
+    def __repr__(self):
+        return 'RE%d' % self.nid
+
+
+class ReenterSpec(Reenter):
     def glomit(self, target, scope):
         return self._do(target, scope, True)
 
+
+class ReenterFn(Reenter):
+    """(no `glomit`: Call would evaluate it as a spec)"""
+
     def __call__(self, target, scope):
         return self._do(target, scope, False)
-
-    def __repr__(self):
-        return 'RE%d' % self.nid
 
 
 def build(sj, ctx):
@@ -519,8 +527,9 @@ def build(sj, ctx):
     if k == 'specglom':
         return glom.Call(NestedS(ctx, sj[1], sj[2]), args=(T,), kwargs={'scope': S})
     if k == 'reenter':
-        r = Reenter(ctx, sj[1], sj[2])
-        return r if sj[2]['point'] == 'glomit' else glom.Call(r, args=(T, S))
+        if sj[2]['point'] == 'glomit':
+            return ReenterSpec(ctx, sj[1], sj[2])
+        return glom.Call(ReenterFn(ctx, sj[1], sj[2]), args=(T, S))
     raise ValueError(sj)
 
 
@@ -957,14 +966,18 @@ def isolated_inner(nid, d, kw, prefix):
     c2 = Ctx(0)
     how = d['how']
     if how in ('copy', 'run'):
-        r = Reenter(c2, nid, dict(d, after=None, catch=False))
-        outcome_of(lambda: glom.glom(None, glom.Call(r, args=(glom.T, glom.S)), path=list(prefix), **kw))
+        r = ReenterFn(c2, nid, dict(d, after=None, catch=False))
+        res = outcome_of(lambda: glom.glom(None, glom.Call(r, args=(glom.T, glom.S)), path=list(prefix), **kw))
     elif how in ('kwcopy', 'kwrun'):
-        r = Reenter(c2, nid, dict(d, after=None, catch=False, how='kwcopy'))
-        outcome_of(lambda: r(None, dict(kw.get('scope', {}), **{glom.Path: list(prefix)})))
+        r = ReenterFn(c2, nid, dict(d, after=None, catch=False, how='kwcopy'))
+        sc = dict(kw.get('scope', {}))
+        sc[glom.Path] = list(prefix)
+        res = outcome_of(lambda: r(None, sc))
     else:
-        r = Reenter(c2, nid, dict(d, after=None, catch=False))
-        outcome_of(lambda: r(None, kw.get('scope', {})))
+        r = ReenterFn(c2, nid, dict(d, after=None, catch=False))
+        res = outcome_of(lambda: r(None, kw.get('scope', {})))
+    if nid not in c2.inner:
+        raise RuntimeError('isolated inner call %d was not made: %r' % (nid, res))
     return c2.inner[nid]
 
 
@@ -987,8 +1000,9 @@ def run_reent(case, out, threads_payload, alone_ctxs):
     # every inner call in isolation
     alone_inner, stub_values = {}, {}
     for nid, call in inner:
-        log, _, _ = run_alone(dict(call, scope=outer.get('scope') if kinds[nid]['how'] != 'none' else None), 0)
-        o2, exc, val = isolated_inner(nid, kinds[nid], kw, ctx.paths.get(nid, []))
+        log, _, _ = run_alone(dict(call, scope=ctx.uvars.get(nid) if kinds[nid]['how'] != 'none' else None), 0)
+        o2, exc, val = isolated_inner(nid, kinds[nid], {'scope': ctx.uvars[nid]} if ctx.uvars.get(nid) else {},
+                                      ctx.paths.get(nid, []))
         alone_inner[nid] = (o2, exc)
         stub_values[nid] = val
         payload.append({'events': log, 'alone': o2})
